@@ -10,7 +10,7 @@ sys.path.insert(0, os.path.dirname(os.path.dirname(os.path.abspath(__file__))))
 import c01  # noqa: E402
 from common import Ctx  # noqa: E402
 
-LEAN_TARGETS = ["QuriVerif.Props.C07", "QuriVerif.Driver.C07"]
+LEAN_TARGETS = ["QuriVerif.Props.C07", "QuriVerif.Props.C07Lift", "QuriVerif.Driver.C07"]
 
 
 def enc_label(pairs) -> str:
@@ -90,19 +90,28 @@ def rich_labels(rng, count, pool=None, maxk=12):
     return labs
 
 
-LABEL_FORMS = ["int", "int", "enum", "str", "lists", "fromstr"]
+# numpy-integer Pauli ids are harmless anywhere (they only meet `==`); numpy-integer qubit INDICES make the symplectic masks
+# fixed-width numpy integers, so they are used only in a section of their own where every index and outcome fits (NP_INDEX_FORMS)
+LABEL_FORMS = ["int", "int", "enum", "str", "lists", "fromstr", "np-ids", "np-ids", "np-pairs", "np-interned"]
+NP_INDEX_FORMS = ["np-index", "np-index-ids", "np-arrays"]
+NP_ID_DTYPES = ["int64", "int32", "int8", "uint8", "intp", "int16"]
 
 
-def mk_label(pairs, form):
-    """the documented ways of building a PauliLabel (ints, SinglePauli members, string, index/pauli lists)"""
+def mk_label(pairs, form, rng=None):
+    """the documented ways of building a PauliLabel: ints, SinglePauli members, string, index/pauli lists, and the same with
+    numpy integer scalars / arrays as Pauli ids (e.g. `from_index_and_pauli_list(idx, np.array(ids))`).  Labels are interned by
+    their string form: while a numpy-built label is alive, building the same label from a string or from ints returns THAT object."""
+    import numpy as np
+
     from quri_parts.core.operator import PauliLabel, SinglePauli
 
     pairs = list(pairs)
+    dt = getattr(np, rng.choice(NP_ID_DTYPES) if rng is not None else "int64")
+    text = " ".join(f"{'XYZ'[p - 1]}{i}" for i, p in pairs)
     try:
         if form == "enum":
             return PauliLabel((i, SinglePauli(p)) for i, p in pairs)
         if form in ("str", "fromstr") and pairs:
-            text = " ".join(f"{'XYZ'[p - 1]}{i}" for i, p in pairs)
             if form == "fromstr":
                 return PauliLabel.from_str(text)
             from quri_parts.core.operator import pauli_label
@@ -110,6 +119,22 @@ def mk_label(pairs, form):
             return pauli_label(text)
         if form == "lists":
             return PauliLabel.from_index_and_pauli_list([i for i, _ in pairs], [SinglePauli(p) for _, p in pairs])
+        if form == "np-ids":
+            return PauliLabel.from_index_and_pauli_list([i for i, _ in pairs], np.array([p for _, p in pairs], dtype=dt))
+        if form == "np-pairs":
+            return PauliLabel((i, dt(p)) for i, p in pairs)
+        if form == "np-interned" and pairs:
+            from quri_parts.core.operator import pauli_label
+
+            first = pauli_label(zip([i for i, _ in pairs], np.array([p for _, p in pairs], dtype=dt)))
+            again = pauli_label(text)  # the interned numpy-built object comes back
+            return again if again == first else first
+        if form == "np-index":
+            return PauliLabel((np.int64(i), p) for i, p in pairs)
+        if form == "np-index-ids":
+            return PauliLabel((np.intp(i), dt(p)) for i, p in pairs)
+        if form == "np-arrays":
+            return PauliLabel.from_index_and_pauli_list(np.array([i for i, _ in pairs], dtype=np.int64), np.array([p for _, p in pairs], dtype=dt))
     except (AttributeError, ImportError):
         pass
     return PauliLabel(pairs)
@@ -198,6 +223,82 @@ def numpy_forms(rng, label_pairs, bits):
     return out
 
 
+def numpy_index_section(ctx: Ctx, add, safe):
+    """labels whose qubit indices (and ids) are numpy integers, e.g. built from numpy arrays: grouping, measurement circuit and
+    reconstructor judged as for any other label.  Everything fits 62 bits here (indices ≤ 30, outcomes < 2^62) and no label
+    object outlives this function (labels are interned by string: a survivor would be handed to later sections)."""
+    import gc
+
+    from quri_parts.core.measurement import (
+        bitwise_commuting_pauli_measurement,
+        bitwise_commuting_pauli_measurement_circuit,
+        bitwise_pauli_reconstructor_factory,
+        individual_pauli_measurement,
+    )
+    from quri_parts.core.operator import Operator
+    from quri_parts.core.operator.grouping import (
+        bitwise_pauli_grouping,
+        individual_pauli_grouping,
+        sorted_injection_grouping,
+    )
+
+    rng = ctx.rng
+    strategies = (("bitwise", bitwise_pauli_grouping), ("sorted", sorted_injection_grouping), ("individual", individual_pauli_grouping))
+    gc.collect()
+    for _ in range(ctx.n(60, 600)):
+        pool = rng.choice([list(range(3)), list(range(5)), list(range(8)), [0, 1, 7, 8, 15, 16, 29, 30]])
+        labs = rich_labels(rng, rng.choice([1, 2, 3, 5, 8, 15]), pool=pool, maxk=6)
+        forms = [rng.choice(NP_INDEX_FORMS + ["np-ids", "int"]) for _ in labs]
+        plabs = [mk_label(l, f, rng) for l, f in zip(labs, forms)]
+        order = [lab_pairs(pl) for pl in plabs]
+        desc = {"labels": order, "built": forms, "note": "qubit indices / Pauli ids are numpy integers where the form says np-*"}
+        for f in forms:
+            ctx.count("numpy_label_form", f)
+        for strat, fn in strategies:
+            use_op = rng.random() < 0.3
+            if use_op:
+                uniq = list(dict.fromkeys(plabs))
+                arg = Operator({pl: float(len(uniq) - k) for k, pl in enumerate(uniq)})  # descending |c|: sorted order = key order
+                model_order = [lab_pairs(pl) for pl in uniq]
+            else:
+                arg, model_order = plabs, order
+            raw = safe(lambda: list(fn(arg)))
+            if raw[0] == "ok":
+                judge_groups(ctx, strat + "-numpy-label", raw[1], plabs, dict(desc, strategy=strat, operator_input=use_op))
+                real = ("ok", canon_groups_real(raw[1]))
+            else:
+                ctx.witness("grouping-raises:" + strat + "-numpy-label", f"{raw[1]}", dict(desc, strategy=strat))
+                real = raw
+            add(f"c07group {strat} | {enc_labels(model_order)}", real, f"group:{strat}:np-index", model_order)
+        for fac, fname in ((bitwise_commuting_pauli_measurement, "bitwise"), (individual_pauli_measurement, "individual")):
+            try:
+                meas = list(fac(plabs))
+            except Exception as e:  # noqa: BLE001
+                ctx.witness("measurement-raises", f"{type(e).__name__}: {e}", dict(desc, factory=fname))
+                continue
+            judge_groups(ctx, "meas-" + fname + "-numpy-label", [m.pauli_set for m in meas], plabs, dict(desc, factory=fname))
+            for m in meas:
+                judge_measurement_local(ctx, rng, m, dict(desc, factory=fname), n_bits=2, max_width=62)
+        groups = safe(lambda: list(bitwise_pauli_grouping(plabs)))
+        for g in (groups[1] if groups[0] == "ok" else [])[:3]:
+            gl = [lab_pairs(pl) for pl in g]
+            add(f"c07meas {enc_labels(gl)}", safe(lambda: [gate_text(x) for x in bitwise_commuting_pauli_measurement_circuit(g)]), "meas:np-index", gl)
+            for pl in list(g)[:2]:
+                l1 = lab_pairs(pl)
+                bits = outcome_bits(rng, l1) & ((1 << 62) - 1)
+                rv = safe(lambda: int(bitwise_pauli_reconstructor_factory(pl)(bits)))
+                add(f"c07rec {enc_label(l1)} | {bits}", rv, "rec", (l1, bits))
+                if rv != ("ok", parity_spec(l1, bits)):
+                    ctx.witness("reconstructor", f"reconstructor of {l1} (numpy-integer indices) on outcome bits {bits} gives {rv[1]}, the eigenvalue is "
+                                f"{parity_spec(l1, bits)}", {"label": l1, "bits": bits, "built": forms})
+        del plabs, groups, raw, arg
+        try:
+            del meas, m, g, pl
+        except NameError:
+            pass
+    gc.collect()
+
+
 def correspond(ctx: Ctx):
     from quri_parts.core.measurement import (
         bitwise_commuting_pauli_measurement_circuit,
@@ -243,14 +344,18 @@ def correspond(ctx: Ctx):
     for perm in perms[: ctx.n(60, 720)]:
         collections.append([list(x) for x in perm])
     for labs in collections:
-        plabs = [mk_label(l, rng.choice(LABEL_FORMS)) for l in labs]
+        forms = [rng.choice(LABEL_FORMS) for _ in labs]
+        plabs = [mk_label(l, f, rng) for l, f in zip(labs, forms)]
         for pl, l in zip(plabs, labs):
             ctx.count("label_len", str(min(len(l), 9)))
             if sorted(lab_pairs(pl)) != sorted(l):  # the constructors are not under test here, the model gets the real content
                 ctx.count("label_form_differs")
         order = [lab_pairs(pl) for pl in plabs]
         for strat, fn in strategies:
-            real = safe(lambda: canon_groups_real(fn(plabs)))
+            raw = safe(lambda: list(fn(plabs)))
+            if raw[0] == "ok":  # the property itself on the real result (concrete input), besides the model comparison
+                judge_groups(ctx, strat, raw[1], plabs, {"strategy": strat, "labels": order, "built": forms})
+            real = ("ok", canon_groups_real(raw[1])) if raw[0] == "ok" else raw
             add(f"c07group {strat} | {enc_labels(order)}", real, "group:" + strat, order)
         # every kind of iterable of labels (one-shot generators, tuples, sets, key views), in its own iteration order
         form = rng.choice(ITER_FORMS)
@@ -354,6 +459,7 @@ def correspond(ctx: Ctx):
                 va, vb = pauli_label_to_bsv(plabs[a]), pauli_label_to_bsv(plabs[b])
                 add(f"c07commute {enc_label(order[a])} | {enc_label(order[b])}", ("ok", "true" if bsv_bitwise_commute(va, vb) else "false"), "commute", (order[a], order[b]))
                 add(f"c07bsv {enc_label(order[a])}", ("ok", f"{va.x} {va.z}"), "bsv", order[a])
+    numpy_index_section(ctx, add, safe)
     for empty in (frozenset(), [], (), set()):
         add("c07meas ", safe(lambda: bitwise_commuting_pauli_measurement_circuit(empty)), "meas-empty", type(empty).__name__)
     resp = ctx.driver(reqs, entry="DriverC07.lean")
@@ -405,7 +511,7 @@ def judge_groups(ctx, tag, groups, content, desc):
     return ok
 
 
-def judge_measurement_local(ctx, rng, m, desc, n_bits=3):
+def judge_measurement_local(ctx, rng, m, desc, n_bits=3, max_width=None):
     """the measurement half of the property for any register width, qubit by qubit: V is a product of one-qubit gates, so
     V P V† = ⊗_q V_q P_q V_q†; it must be Z on every support qubit of every member (gates elsewhere are harmless), and then
     <b|V P V†|b> = (-1)^{#support qubits of P set in b}, which the member's reconstructor has to return for every b"""
@@ -436,6 +542,8 @@ def judge_measurement_local(ctx, rng, m, desc, n_bits=3):
             rec = m.pauli_reconstructor_factory(pl)
             for _ in range(n_bits):
                 bits = outcome_bits(rng, pairs)
+                if max_width:
+                    bits &= (1 << max_width) - 1
                 got = rec(bits)
                 if got != parity_spec(pairs, bits):
                     ctx.witness("reconstructor", f"reconstructor of {pairs} on outcome bits {bits} gives {got}, the eigenvalue is {parity_spec(pairs, bits)}",
@@ -481,7 +589,7 @@ def cache_histories(ctx: Ctx, n_hist: int) -> int:
         other = rng.choice([k for k in factories if k != name])
         cf, cf_other = CachedMeasurementFactory(factories[name]), CachedMeasurementFactory(factories[other])
         pool_idx = rng.choice([list(range(3)), list(range(4)), list(range(6)), None, list(range(62, 66))])
-        pool = list(dict.fromkeys(mk_label(l, rng.choice(LABEL_FORMS)) for l in rich_labels(rng, 12, pool=pool_idx, maxk=4)))
+        pool = list(dict.fromkeys(mk_label(l, rng.choice(LABEL_FORMS), rng) for l in rich_labels(rng, 12, pool=pool_idx, maxk=4)))
 
         def coef():
             # mostly pairwise distinct magnitudes (the order sorted injection uses is then determined), sometimes ties / ints
@@ -667,14 +775,15 @@ def validate(ctx: Ctx, budget_s: float):
         else:
             n = rng.randint(1, 5)
             labs = random_labels(rng, n, rng.choice([1, 2, 3, 6, 12]))
-        plabs = [mk_label(l, rng.choice(LABEL_FORMS)) for l in labs]
+        forms = [rng.choice(LABEL_FORMS) for _ in labs]
+        plabs = [mk_label(l, f, rng) for l, f in zip(labs, forms)]
         uniq = list(dict.fromkeys(plabs))
         op = Operator(dict(zip(uniq, coefficients(len(uniq)))))
         base = rng.choice(["bitwise", "sorted", "individual"])
         form = rng.choice(["op", "op"] + ITER_FORMS)
         strat = f"{base}-op" if form == "op" else base
         n_eval += 1
-        desc = {"strategy": strat, "labels": labs, "input_form": form}
+        desc = {"strategy": strat, "labels": labs, "built": forms, "input_form": form}
         if form == "op":
             arg, content = op, list(op.keys())
             desc["coefficients"] = [str(v) for v in op.values()]
@@ -693,7 +802,7 @@ def validate(ctx: Ctx, budget_s: float):
                "cached-bitwise": CachedMeasurementFactory(bitwise_commuting_pauli_measurement),
                "cached-individual": CachedMeasurementFactory(individual_pauli_measurement)}[facname]
         mform = rng.choice(["op", "op"] + ITER_FORMS)
-        desc = {"factory": facname, "labels": labs, "input_form": mform}
+        desc = {"factory": facname, "labels": labs, "built": forms, "input_form": mform}
         ctx.count("validate_meas_form", mform)
         try:
             marg = op if mform == "op" else as_iterable(plabs, mform)[0]
@@ -741,15 +850,17 @@ def run(ctx: Ctx, replay=None) -> int:
                 "content in another object, plain iterables, second instance) judged after every call; distinct = distinct (function, input)")
     ctx.trusted = c01.TRUSTED[:1] + [
         "bsv model uses bitwise OR where the code adds 1<<i (equal on valid labels; compared bit-exactly each run)",
-        "measurement soundness on the full register (tensor lifting of the per-qubit kernel facts) validated per instance with dense matrices for n ≤ 5 "
-        "and qubit-locally (2x2 matrices per support qubit + parity of the support bits) for any width",
+        "measurement soundness on the full register is PROVED (Proof/MeasSound, Props/C07Lift: group_sound, bitwise_grouping_measurable, "
+        "sorted_injection_measurable - for every register size, V·P = Z_supp·V and the reconstructor is the eigenvalue of Z_supp); the per-instance "
+        "dense (n ≤ 5) and qubit-local checks of the REAL circuits remain as correspondence of the real factories with the model's measCircuit/reconstructor",
         "Found/Gate.lean matrices for H, Sdag, Pauli (cross-checked in C01)",
     ]
     ctx.assumptions = ["labels are valid (one Pauli per index)"]
-    ok = ctx.prove(["QuriVerif.Props.C07", "QuriVerif.Driver.C07"], ["QuriVerif.Props.C07"])
+    ok = ctx.prove(["QuriVerif.Props.C07", "QuriVerif.Props.C07Lift", "QuriVerif.Driver.C07"], ["QuriVerif.Props.C07", "QuriVerif.Props.C07Lift"])
     if ok:
         names = [f"QV.Props.C07.{n}" for _, n, _ in ctx.count_obligations(["QuriVerif.Props.C07"])]
-        ctx.audit(names, ["QuriVerif.Props.C07"])
+        names += [f"QV.Props.C07Lift.{n}" for _, n, _ in ctx.count_obligations(["QuriVerif.Props.C07Lift"]) if n != "ex_circ"]
+        ctx.audit(names, ["QuriVerif.Props.C07", "QuriVerif.Props.C07Lift"])
         with ctx.timed("correspond"):
             correspond(ctx)
     with ctx.timed("oracle_validation"):
